@@ -12,7 +12,8 @@ ID = "C03"
 MIN_NONTRIVIAL = 0.3
 RULE = ("Hypothesis: (configuration, piece, partitions). Bars are obtained either through Sequence.sequences_split_bars (notes may "
         "cross bar lines and are cut; default note values with re-quantisation, custom value sets without) or by constructing "
-        "Bar objects directly from per-bar note sets (any configuration). Chunks are Bar.to_sequence(copies of consecutive "
+        "Bar objects directly from per-bar note sets (any configuration), or cut out of the raw tracks with Sequence.split (no Bar objects: "
+        "chunks do not start with their own signature event and may carry a stray mid-bar signature message that tokenise ignores). Chunks are Bar.to_sequence(copies of consecutive "
         "bars) per track, tokenised in order with one threaded state dict; the reference is one tokenise call on "
         "Bar.to_sequence(all bars). Partitions: 'one bar per call', 'everything in one call' and random compositions (quick), "
         "every composition of the bar count (thorough, <= 6 bars). Oracle: both streams are in the vocabulary and detokenise, "
@@ -29,9 +30,29 @@ TIERS = {"quick": dict(shards=8, examples=500, all_partitions=False),
 def _case(draw, shard, nshards, all_partitions):
     cfg = draw(T.config(shard=shard, nshards=nshards, max_tracks=3))
     cfg["ppqn"] = None      # Bar / sequences_split_bars lay bars out with the library resolution
-    route = draw(st.sampled_from(["split", "direct"]))
+    route = draw(st.sampled_from(["split", "direct", "raw"]))
     piece = draw(T.piece(cfg, allow_crossing=(route == "split" and cfg["note_values"] is None), noise=False,
                          min_bars=draw(st.sampled_from([1, 2, 2, 3, 4]))))
+    if route == "raw":
+        # chunks are cut out of the raw tracks with Sequence.split (no Bar objects, so a chunk does not start with its
+        # own signature event and may carry a stray mid-bar signature message, which tokenise ignores)
+        total = piece["bars"][-1][0] + piece["bars"][-1][1]
+        for t in piece["tracks"]:
+            t["pad"] = total
+            t["post"] = None
+        if draw(st.booleans()):
+            b = draw(st.sampled_from(piece["bars"]))
+            u = cfg["unit"]
+            if b[1] > u:
+                tick = b[0] + u * draw(st.integers(1, max(1, (b[1] - 1) // u)))
+                # not the value of the next on-grid signature change: normalise (run by tokenise's merge) would drop that
+                # change as a repeat of the ignored stray one in the single call only (see DESIGN 11.3)
+                nxt = next((bb[2] for bb in piece["bars"] if bb[0] > b[0] and bb[2] != b[2]), None)
+                sig = draw(st.sampled_from(T.SIGNATURES).filter(lambda s_: nxt is None or list(s_) != list(nxt)))
+                tr = draw(st.sampled_from(piece["tracks"]))
+                if tick < b[0] + b[1] and not any(m[0] == "ts" and m[1] == tick for m in tr["meta"]):
+                    tr["meta"].append(["ts", tick, sig[0], sig[1], 0])
+                    piece["stray_signature"] = True
     cuts = draw(st.lists(st.lists(st.booleans(), min_size=8, max_size=8), min_size=1, max_size=2))
     return {"cfg": cfg, "piece": piece, "route": route, "cuts": cuts, "all_partitions": all_partitions}
 
@@ -51,6 +72,22 @@ def _bars_direct(piece):
             bars.append(Bar(s, num, den))
         tracks_bars.append(bars)
     return tracks_bars
+
+
+class _Chunk:
+    """a whole-bar slice of a raw track; quacks like a Bar for the purposes of this module"""
+
+    def __init__(self, sequence):
+        self.sequence = sequence
+
+    def copy(self):
+        return _Chunk(self.sequence.copy())
+
+
+def _concat(chunks):
+    s = Sequence()
+    s.concatenate([c.sequence for c in chunks])
+    return s
 
 
 def _read(tok, tokens):
@@ -78,10 +115,28 @@ def check(case):
                 seqs.append(built[0])
             tb = Sequence.sequences_split_bars(seqs, meta_track_index=piece["meta_track"],
                                                quantise_note_lengths=cfg["note_values"] is None)
+        elif case["route"] == "raw":
+            caps = [b[1] for b in piece["bars"]]
+            seqs = []
+            for spec in piece["tracks"]:
+                built = build_input(out, spec)
+                if built is None:
+                    return out
+                seqs.append(built[0])
+            tb = []
+            for s in seqs:
+                pcs = s.split(list(caps))
+                if len(pcs) != len(caps):
+                    out.inconclusive = "raw-split-piece-count"
+                    return out
+                tb.append([_Chunk(p) for p in pcs])
         else:
             tb = _bars_direct(piece)
         nb = len(tb[0])
-        whole = [Bar.to_sequence([b.copy() for b in tb[i]]) for i in range(nt)]
+        if case["route"] == "raw":
+            whole = [s.copy() for s in seqs]
+        else:
+            whole = [Bar.to_sequence([b.copy() for b in tb[i]]) for i in range(nt)]
     except Exception as e:
         out.inconclusive = f"preparation-raised:{type(e).__name__}"
         return out
@@ -128,7 +183,8 @@ def check(case):
         tokens = []
         try:
             for g in groups:
-                chunk = [Bar.to_sequence([tb[i][k].copy() for k in g]) for i in range(nt)]
+                join = _concat if case["route"] == "raw" else Bar.to_sequence
+                chunk = [join([tb[i][k].copy() for k in g]) for i in range(nt)]
                 tokens.extend(tok.tokenise(chunk, state_dict=state))
         except Exception as e:
             out.fail(f"chunked-tokenise-raises:{type(e).__name__}", f"groups {groups}: {e}; cfg {cfg}")
@@ -153,6 +209,7 @@ def check(case):
                 return out
     out.nontrivial = multi and (sig_change or empty_bar or first_tick_only or cut)
     out.label("route=" + case["route"], f"bars={nb}", f"partitions={len(seen)}",
+              *(["stray-mid-bar-signature"] if piece.get("stray_signature") else []),
               *[l for l, c in (("sig-change", sig_change), ("empty-bar", empty_bar), ("first-tick-only-bar", first_tick_only),
                                ("cut-note", cut)) if c])
     return out
